@@ -42,8 +42,15 @@ VSop(ev) ==
                  /\ BagOfSeq(Bases(o[3])) = BagOfSeq(PySlice(Bases(pl), a, b))
               THEN "slice:selfoverlap-order" ELSE "slice:location-consistent")
         ELSE IF o[4] # ph THEN "slice:keeps-location"
-        ELSE IF plain /\ o[2] # PySlice(pc, a, b) THEN "slice:chars" ELSE "ok"
+        ELSE IF plain /\ o[2] # PySlice(pc, a, b) THEN "slice:chars"
+        ELSE "ok"
      ELSE IF ~Rejected(o) THEN "slice:internal-error"
+     \* "all slice bounds": an empty slice [a, a) with 0 <= a <= n is answered too.  Named deviation (keyed finding
+     \* seq:empty-slice-at-end-of-compound-location): at the very end (a = n) of a sequence located by a MULTI-block
+     \* location the library refuses with InvalidPositionException
+     ELSE IF plain /\ 0 <= a /\ a = b /\ b <= n THEN
+          (IF a = n /\ ph /\ ~IsEmptyLoc(pl) /\ Len(pl[1]) >= 2 /\ o[2] = "InvalidPositionException"
+           THEN "slice:empty-at-end-of-compound-location" ELSE "slice:returns")
      ELSE IF plain /\ 0 <= a /\ a < b /\ b <= n THEN (IF open THEN "slice:open-bound-rejected" ELSE "slice:returns")
      ELSE "ok"
   ELSE IF op = "index" THEN
